@@ -21,7 +21,7 @@ RULE = (
     "of different dimension and in different containers. Twin A executes the schedule with one long-lived "
     "Operation object per slot; twin B, on an identically prepared world, applies a freshly constructed equal "
     "Operation at every apply and performs no other constructions. Oracle (metamorphic): after every apply both "
-    "twins agree on accept/reject and on the joint density matrix (<= 1e-9, 1e-2 after displacement/squeezing); "
+    "twins agree on accept/reject and on the joint density matrix (<= 1e-9; 1e-6 when a slot goes through a matrix exponential; 1e-2 after displacement/squeezing); "
     "numpy arrays handed to the library (custom operator matrices, Kraus lists, POVM lists; every subsystem of the "
     "world, through its own entry point) are bit-identical afterwards. "
     "Non-trivial = a slot is applied after another slot of the same operation type (different parameters / "
@@ -97,7 +97,16 @@ def _case(draw):
             op = slots[i]["op"]
             kinds = actions.operand_kinds(op)
             # operands of the right kinds; sometimes the default ones, sometimes others (other dimension / container)
-            if draw(st.booleans()):
+            applied_before = sum(1 for e_ in events if e_["ev"] == "apply" and e_["slot"] == i)
+            focks_in_ce = [s_ for s_ in mem if info.kind[s_] == "fock"]
+            if op["type"] == "comp:BS" and len(focks_in_ce) >= 3 and draw(st.booleans()):
+                # re-use of one beam-splitter object on pairs that need a growing cut-off: order the candidate
+                # pairs by the photon number they start with and take the (applied_before)-th smallest
+                occ = {f_: info.spec["envs"][int(f_[1:].split(".")[0])].get("fock", 0) for f_ in focks_in_ce}
+                pairs = sorted(((occ[a_] + occ[b_], a_, b_) for a_ in focks_in_ce for b_ in focks_in_ce if a_ < b_))
+                tot, a_, b_ = pairs[min(applied_before, len(pairs) - 1)]
+                ts = [a_, b_] if draw(st.booleans()) else [b_, a_]
+            elif draw(st.booleans()):
                 ts = slots[i]["default_targets"]
             else:
                 ts = []
@@ -299,7 +308,8 @@ def run_case(case):
         cd = [max(p, q) for p, q in zip(x[2], y[2])]
         td = ref.trace_distance(ref.pad(x[3], x[2], cd), ref.pad(y[3], y[2], cd))
         trunc = trunc or any(s["op"]["type"] in ("fock:Displace", "fock:Squeeze") for s in case["slots"])
-        if td > (1e-2 if trunc else 1e-9):
+        expm_ops = any(s["op"]["type"] in ("comp:BS", "fock:Expresion", "comp:Expression") for s in case["slots"])
+        if td > (1e-2 if trunc else (1e-6 if expm_ops else 1e-9)):
             raise Violation("twin-state", f"apply #{i}: re-used Operation object and freshly constructed equal Operation lead to joint states {td:.3e} apart", dict(site, what="state"))
     _user_arrays_untouched(case, labels)
     types = [s["op"]["type"] for s in case["slots"]]
